@@ -1038,7 +1038,12 @@ thread_local! {
 
 fn c01_sig(kind: &str, c: &Compiled) -> String {
     let by_tags = format!("{kind} tags={}", c.query.tags.join("+"));
+    let by_query = format!("{kind} :: {}", c.query.sql);
     KNOWN_C01.with(|k| {
+        // a finding recorded for this very query (the narrowest key: it excuses nothing else)
+        if k.contains(&by_query) {
+            return by_query.clone();
+        }
         if k.contains(&by_tags) {
             return by_tags.clone();
         }
@@ -1057,7 +1062,12 @@ fn c01_sig(kind: &str, c: &Compiled) -> String {
 fn c09_sig(kind: &str, c: &Compiled) -> String {
     let tags = c.query.tags.join("+");
     let by_tags = format!("{kind} tags={tags}");
+    let by_query = format!("{kind} :: {}", c.query.sql);
     KNOWN_C09.with(|k| {
+        // a finding recorded for this very query (the narrowest key: it excuses nothing else)
+        if k.contains(&by_query) {
+            return by_query.clone();
+        }
         if k.contains(&by_tags) {
             return by_tags.clone();
         }
